@@ -14,6 +14,7 @@ The run returns the TestResults plus a recorded history (queries, replies, log r
 from __future__ import annotations
 
 import contextlib
+import gc
 import hashlib
 import io
 import os
@@ -22,6 +23,7 @@ import shutil
 import subprocess as _real_subprocess
 import tempfile
 import uuid
+import weakref
 
 from . import shims
 from .sched import INF, Sim
@@ -332,6 +334,41 @@ class RunSimResult:
         self.observed: dict = {}
 
 
+class OrderedWeakSet:
+    """Stand-in for the WeakSet of halmos' ExecutorRegistry: same interface, but membership and iteration order depend neither
+    on when the cyclic gc happened to run nor on object addresses (both vary with process history and would make the number of
+    shutdown steps - and with it the landing point of an injected signal - differ between two executions of one seed)."""
+
+    def __init__(self):
+        self._refs = []
+
+    def add(self, x):
+        if not any(r() is x for r in self._refs):
+            self._refs.append(weakref.ref(x))
+
+    def discard(self, x):
+        self._refs = [r for r in self._refs if r() is not None and r() is not x]
+
+    remove = discard
+
+    def clear(self):
+        self._refs = []
+
+    def _live(self):
+        gc.collect()  # membership = executors that are still reachable, not "not collected yet"
+        self._refs = [r for r in self._refs if r() is not None]
+        return [r() for r in self._refs]
+
+    def __iter__(self):
+        return iter(self._live())
+
+    def __len__(self):
+        return len(self._live())
+
+    def __contains__(self, x):
+        return any(r() is x for r in self._refs)
+
+
 def reset_halmos_globals():
     """each simulated run stands for one fresh halmos process"""
     import logging
@@ -342,8 +379,7 @@ def reset_halmos_globals():
         if hasattr(flt, "records"):
             flt.records.clear()
     reg = hp.ExecutorRegistry()
-    with contextlib.suppress(Exception):
-        reg._executors.clear()
+    reg._executors = OrderedWeakSet()
 
 
 def run_under_sim(ch, main_fn, *, solver="yices", plan=None, fault_rate=0.0, kinds=None, preempt_k=0,
